@@ -2,8 +2,24 @@
 from checks import supmachine as sm
 
 
+def _name_release(c, replay=None):
+    """a supervisor restarts its child under the same registered name as soon as it gets the child's exit message: when
+    the termination of a process is announced (its relations are being dropped) its registered name is already free
+    (real node, target manager wrapper of the rel initfail family)"""
+    args = ["initfail", "-replay", replay] if replay else ["initfail", "-n", "60" if c.tier == "quick" else "1200"]
+    out = c.harness("rel", args, timeout=600)
+    if out:
+        out["monitor"] = [m for m in (out.get("monitor") or []) if "restart under the same name" in m["what"]]
+        c.monitor("name-release", out)
+
+
 def run(c):
     c.proofs("theories/Properties/C08.v", clean=(c.tier == "thorough"))
+    if c.replay and sm.replay_kind(c).startswith("name-release"):
+        _name_release(c, replay=c.replay)
+        return
+    if not c.replay:
+        _name_release(c)
     sm.machine(c, "machine",
                spec=["spec_prescribed", "spec_keeporder", "spec_start_order", "spec_noticed"],
                premise=["premise_quiescent"])
